@@ -14,7 +14,9 @@ PROPS["C14"] = dict(
           "lambda (0 or > 0), J^2 over 8 decades, field (none / weak / axis / strong), R up to 30 bohr, kT 48..960 K, carrier e/h/s/t on a 2^-16 "
           "lattice; checks positivity, k(alpha J^2) = alpha k(J^2), ln(k12/k21) = -dE/kT in long double; non-trivial = charged carrier with "
           "F.R != 0 and E1 != E2. waiting_time: seeds x rate lists; Promotetime equals -ln(1-u)/k on the reproduced mt19937 stream, finite, "
-          ">= 0, scales as 1/k; ChooseHoppingDest equals the tree lookup at 1-u; non-trivial = >= 2 different rates in the sequence."),
+          ">= 0, scales as 1/k; ChooseHoppingDest equals the tree lookup at 1-u; non-trivial = >= 2 different rates in the sequence."
+          " huffman_measure also covers histories: in 35 % of the generated cases the tree is first built for a prefix of the events, "
+          "more events are added and the tree is rebuilt (KMCLifetime's sequence); the final tree is checked."),
     assumptions=COMMON_ASSUME + [
         "the field term is read with the physical sign: dE(1->2) = (E2-E1) - q F.(r2-r1), R() = r2-r1 (DESIGN C14 sign note)",
         "'equal forward/backward reorganisation energy' means equal TOTAL reorganisation energies; the outer-sphere part is a pair property "
